@@ -24,6 +24,13 @@ impl<'a> Visitor for TyVis<'a> {
             let d = 1 + (i % 3) as u32;
             let v = T::gen(&mut r, d);
             case_value::<T>(&v, &mut r, self.c, &mut self.q, &o);
+            // tuples are version-0 records: the same fields under a later version's header
+            let name = T::rust_name();
+            if i < 4 && name.starts_with('(') && name != "()" {
+                if let Out::Ok(b) = impl_encode(&v) {
+                    crate::cases::future_version_case::<T>(&v, &b, self.c, &mut self.q);
+                }
+            }
         }
     }
 }
